@@ -322,11 +322,19 @@ func (g *Gen) cacheOps() []Op {
 		}
 		return nil
 	default:
+		// a collection only does something above the target: most of the time fetch instead
+		if target := uint64(float64(g.H.Cap) * 0.9); g.St.Last.GCSize <= target && !r.Chance(1, 6) {
+			var ops []Op
+			for _, c := range all {
+				ops = append(ops, Op{K: "put", T: g.tick(), Mode: 0, Root: f.Root, Chs: []Ch{{A: c, D: g.data(c)}}})
+			}
+			return ops
+		}
 		op := Op{K: "gc", Root: -1, Pyr: g.pyramids()}
 		if r.Chance(1, 6) {
 			op.BatchSize = uint64(1 + r.Intn(4))
 		}
-		if r.Chance(1, 3) { // accesses racing with the eviction
+		if r.Chance(1, 2) { // accesses racing with the eviction
 			for i := 0; i < 1+r.Intn(2); i++ {
 				ff := g.file()
 				switch r.Intn(4) {
